@@ -139,6 +139,7 @@ struct IntTr {
   static constexpr bool MEM = false; // elements own memory of the resource
   static constexpr bool HAS_EQ = true;
   static constexpr bool TWO_ARGS = false;
+  static constexpr bool COUNT_ARG = false;
 };
 
 std::string gen_string(vfz::Dec& d) {
@@ -169,6 +170,7 @@ struct StrTr {
   static constexpr bool RAW = true;
   static constexpr bool MEM = true;
   static constexpr bool HAS_EQ = true;
+  static constexpr bool COUNT_ARG = false;
   static constexpr bool TWO_ARGS = true;  // (count, char): std::basic_string::assign(n, c) on a reused slot
   static M make2(unsigned a, unsigned b) { return M((size_t)a, (char)('a' + b)); }
   template <class V>
@@ -213,6 +215,7 @@ struct NestTr {
   static constexpr bool MEM = true;
   static constexpr bool HAS_EQ = true;
   static constexpr bool TWO_ARGS = false;
+  static constexpr bool COUNT_ARG = true;  // emplace(count): a reused inner vector is re-exposed through assign(count)
 };
 
 struct ElemTr {
@@ -232,6 +235,7 @@ struct ElemTr {
   static constexpr bool RAW = true;
   static constexpr bool MEM = false;
   static constexpr bool HAS_EQ = true;
+  static constexpr bool COUNT_ARG = false;
   static constexpr bool TWO_ARGS = true;  // Elem(int, int): no assign(a, b), so a reused slot is destroyed and constructed again
   static M make2(unsigned a, unsigned b) { return (int)(a * 1000 + b); }
   template <class V>
@@ -290,6 +294,7 @@ struct ProtoTr {
   static constexpr bool MEM = true;
   static constexpr bool HAS_EQ = false;
   static constexpr bool TWO_ARGS = false;
+  static constexpr bool COUNT_ARG = false;
 };
 
 // F8 (known finding, reported by this target): ReusableVector does not support a value argument that refers to an
@@ -496,6 +501,27 @@ struct Runner {
         }
         vfz::label("aliased_value_argument");
         check(k, "an insertion whose value argument is an element of the same vector");
+      } else if (op < 8 && Tr::COUNT_ARG && form % 16 >= 13) {
+        // emplace with a count: the element becomes a vector of `n` blank strings. On a slot that is constructed
+        // but logically dead (after pop_back / erase / clear of the outer vector) this is Reuse::reconstruct(inner, n)
+        // = inner.assign(n): whatever the inner vector held before must not show through.
+        size_t pos = d.u8() % (m.size() + 1);
+        size_t n = d.u8() % 5;
+        bool at_end = d.u8() & 1;
+        note("v%d.emplace%s(%zu; count %zu)", k, at_end ? "_back" : "", pos, n);
+        classify_insert(x, 1);
+        if constexpr (Tr::COUNT_ARG) {
+          if (at_end) {
+            x.emplace_back(n);
+            m.push_back(M(n));
+          } else {
+            auto it = x.emplace(x.cbegin() + pos, n);
+            m.insert(m.begin() + (long)pos, M(n));
+            if (it != x.begin() + pos) failc("emplace(pos,count) returned an iterator to index %ld, expected %zu", (long)(it - x.begin()), pos);
+          }
+        }
+        vfz::label("emplace_with_count_on_nested_vector");
+        check(k, "emplace(count)");
       } else if (op < 8 && Tr::TWO_ARGS && form % 16 == 15) {
         // multi-argument emplace: in-place construction / assign(args...) / destroy+construct on a reused slot
         size_t pos = d.u8() % (m.size() + 1);
